@@ -506,6 +506,7 @@ func main() {
 	r.Register("frame4", runFrame4)
 	registerMore(r)
 	registerPad(r)
+	registerReuse(r)
 	if r.Replayed() {
 		return
 	}
@@ -574,6 +575,7 @@ func main() {
 			lib.Hex(a4()), lib.Hex(a4()), itoa(g.port()), itoa(g.port()), lib.Hex(pl))
 		g.more(i)
 		g.padCase(i % 65) // every inner payload size 0..64, repeatedly
+		g.reuseCases()
 		if i%8 == 0 {
 			g.padCase(g.plenFor(packet.EthMaxSize, 42))
 		}
